@@ -92,4 +92,67 @@ def shareCompleteOk (recs : List Rec) (acc : List Blk) : List Call → List Nat 
     && shareCompleteOk (if c.last && !acc'.isEmpty then recs ++ [⟨loc, acc'⟩] else recs) acc' cs ls
   | _, _ => false
 
+/-! ### A specification without checksums (the data-block clause of `specPack`, DESIGN.md Appendix B)
+
+State: what the file held before, and the stored blocks (size word + bytes) in file order; the file *is*
+`pre ++ blocks`.  On `LAST`: the smallest `r < file_start` whose `count` size words equal the file's **and**
+whose bytes equal the file's bytes gives the location; the history is cut to `max (r + count) file_start`
+entries.  No checksum appears: `Sqfs.C08.bw_refines_spec` shows the block writer computes exactly this for every
+checksum function, so the checksum only ever saves comparisons. -/
+
+structure SBlk where
+  word : Nat
+  data : Bytes
+deriving DecidableEq, Repr
+
+structure SState where
+  pre       : Bytes
+  hist      : List SBlk
+  fileStart : Nat
+deriving Repr
+
+def sBytes : List SBlk → Bytes
+  | [] => []
+  | b :: r => b.data ++ sBytes r
+
+def SState.file (ss : SState) : Bytes := ss.pre ++ sBytes ss.hist
+
+/-- byte offset of stored block `i` -/
+def sOffset (ss : SState) (i : Nat) : Nat := ss.pre.length + (sBytes (ss.hist.take i)).length
+
+/-- does the run of `count` blocks at `r` carry the same size words and the same bytes as the blocks from `fs` on? -/
+def sMatchAt (hist : List SBlk) (fs r : Nat) : Bool :=
+  let own := hist.drop fs
+  let cand := (hist.drop r).take own.length
+  cand.map (·.word) == own.map (·.word) && sBytes cand == sBytes own
+
+/-- smallest matching index below `fs`, else `fs` -/
+def sFind (hist : List SBlk) (fs : Nat) : Nat := ((List.range fs).find? (sMatchAt hist fs)).getD fs
+
+def specWrite (ss : SState) (flags : Nat) (data : Bytes) : SState × Nat :=
+  let ss1 := if hasFlag flags blkFirstBlock then { ss with fileStart := ss.hist.length } else ss
+  let loc := ss1.file.length
+  let ss2 :=
+    if data.length != 0 && !hasFlag flags blkIsSparse then
+      { ss1 with hist := ss1.hist ++ [⟨mkWord data.length flags, data⟩] }
+    else ss1
+  if hasFlag flags blkLastBlock then
+    let count := ss2.hist.length - ss2.fileStart
+    if count = 0 then (ss2, 0)
+    else if hasFlag flags blkDontDeduplicate then (ss2, sOffset ss2 ss2.fileStart)
+    else
+      let r := sFind ss2.hist ss2.fileStart
+      if r < ss2.fileStart then
+        ({ ss2 with hist := ss2.hist.take (max (r + count) ss2.fileStart) }, sOffset ss2 r)
+      else (ss2, sOffset ss2 ss2.fileStart)
+  else (ss2, loc)
+
+/-- calls without checksums: `(flags, data)` -/
+def specRun (ss : SState) : List (Nat × Bytes) → SState × List Nat
+  | [] => (ss, [])
+  | (fl, d) :: cs =>
+    let r := specWrite ss fl d
+    let rest := specRun r.1 cs
+    (rest.1, r.2 :: rest.2)
+
 end Sqfs.BlockWriter
